@@ -6,7 +6,7 @@ CONSTANTS
   MaxSnap = 2
   Sizes = {1}
   LtxMode = 0
-  FixU1 = FALSE
+  FixU1 = TRUE
   Parts = 1
   Part = 0
 INVARIANTS InvNoSnapshotIsError InvGapIsErrorModU1 InvRightState InvArbitrationClear InvCompleteHasNoGap InvU1Outcome
